@@ -6,6 +6,8 @@ C16  Asynchronous requests (set_data / get_data).
 * `stored`            : an accepted set_data leaves the values in the target's pending inputs
 * `delivered_in_next_step`, `delivered_once` : the target's next step receives them (they take
                         precedence over remembered values) and clears them, so no later step sees them
+* `delivered_after_t` : every step A begins after B has begun `tb` lies after `tb` (adapted by the connection's delay): the
+                        values B sets during its step at `tb` arrive in a step of A *after* `tb`
 * `order`             : when A (with async connection A → B) begins a step at `t`, B's progress has
                         reached `t`; so while B's step at `tb` is in flight A begins no step later
                         than `tb`
@@ -153,5 +155,17 @@ theorem order {cfg : Cfg} (hw : WFCfg cfg) {s s' : State} {A : Sid} (hr : Reach 
     refine ⟨h1, ?_⟩
     intro tb htb
     rw [← (hc bd.1 hbn).cur_eq tb htb]; exact h1
+
+/-- **"in A's first step after t"**: once the agent `B` has begun its step at `tb`, every step the controller `A` (which feeds
+`B`: `A ∈ input_delays(B)`, the delay being the connection's — all-zero for a plain or async connection) begins later in the
+run, under any interleaving, lies after `tb` when delayed by the connection.  Together with `delivered_in_next_step` /
+`delivered_once`: what `B` sets during its step at `tb` arrives exactly once, in a step of `A` after `tb`.  (This is
+`C01.causal_run` read for the pair; a connection table in which the async registration did not lower the pair's input delay —
+the seeded change C16-async-delay-setdefault-shifted — violates the hypothesis `WFCfg` and the correspondence.) -/
+theorem delivered_after_t {cfg : Cfg} (hw : WFCfg cfg) (as : List Action) {s s' : State} (hr : Reach cfg s)
+    (he : exec cfg s as = some s') (hnf : s'.failed = none) {B : Sid} (hB : B < cfg.n) {tb : TT} (htb : tb ∈ (s.sims B).begun)
+    {qd : Sid × TI} (hqd : qd ∈ (cfg.sim B).inputDelays) :
+    ∀ c ∈ (s'.sims qd.1).begun, c ∉ (s.sims qd.1).begun → tb < TI.act c qd.2 :=
+  C01.causal_run hw as hr he hnf hB htb hqd
 
 end Mosaik.C16
